@@ -615,18 +615,22 @@ class Evaluator:
             if gn is not None:
                 yield (gn, "val", ("unit",), env0)
             return
-        if len(changed) == 1 and not rets:
-            var = next(iter(changed))
-            new_vals = {canon(env2[var]) for (g, kind, t, env2) in outs if env2.get(var) != env0[var]}
-            if len(new_vals) == 1:
-                f = next(iter(new_vals))
-                lam = ("lam", base, 1, tuple((g, "val", ("bool", env2.get(var) != env0[var])) for (g, kind, t, env2) in outs))
+        if changed and not rets:
+            # keep-last, possibly with several variables assigned together (the kept item and values derived from it):
+            # in every case of the body either all of them are assigned — each the same term of the item — or none
+            vars_ = sorted(changed, key=repr)
+            hit = lambda env2: [env2.get(v) != env0[v] for v in vars_]
+            together = all(all(hit(env2)) or not any(hit(env2)) for (g, kind, t, env2) in outs)
+            new_vals = {v: {canon(env2[v]) for (g, kind, t, env2) in outs if env2.get(v) != env0[v]} for v in vars_}
+            if together and all(len(x) == 1 for x in new_vals.values()):
+                lam = ("lam", base, 1, tuple((g, "val", ("bool", all(hit(env2)))) for (g, kind, t, env2) in outs))
                 last = ("app", ITER + "last", None, (("app", ITER + "filter", None, (I, lam)),))
                 some = ("isvar", last, "Some")
                 gs, gn = gadd(g0, some, True), gadd(g0, some, False)
                 if gs is not None:
                     env1 = dict(env0)
-                    env1[var] = subst(f, {item: ("unwrap", last)})
+                    for v in vars_:
+                        env1[v] = subst(next(iter(new_vals[v])), {item: ("unwrap", last)})
                     yield (gs, "val", ("unit",), env1)
                 if gn is not None:
                     yield (gn, "val", ("unit",), env0)
@@ -1214,15 +1218,18 @@ class Evaluator:
             for pp, a in zip(callee["params"], args):
                 if "pat" in pp:
                     self.bind(pp["pat"], a, cenv, callee)
+            # (the callee is evaluated to the end before anything is handed on: the consumer of this generator goes
+            # on evaluating the caller's body between two outcomes, which must not see the callee's frame)
             self.tysubst.append({})
             try:
-                for (g2, kind, t, e2) in self.ev(callee["value"], State(g, cenv), depth + 1, callee):
-                    if kind in ("val", "ret"):
-                        yield (g2, "val", t, self.write(env, lexpr, e2[pj["id"]], sp))
-                    else:
-                        yield (g2, kind, t, env)
+                res = list(self.ev(callee["value"], State(g, cenv), depth + 1, callee))
             finally:
                 self.tysubst.pop()
+            for (g2, kind, t, e2) in res:
+                if kind in ("val", "ret"):
+                    yield (g2, "val", t, self.write(env, lexpr, e2[pj["id"]], sp))
+                else:
+                    yield (g2, kind, t, env)
             return
         # --- inlining ------------------------------------------------------------------
         target = None
@@ -1269,12 +1276,13 @@ class Evaluator:
                 frame = {n: a for n, a in zip(gen, f["args"]) if a.get("k") != "param" or a.get("name") != n}
             self.tysubst.append(frame)
             try:
-                for (g2, kind, t) in self.summarize(callee, args, depth + 1, g):
-                    yield (g2, kind, t, env)
+                res = self.summarize(callee, args, depth + 1, g)     # a list: evaluated to the end under this frame
             finally:
                 self.tysubst.pop()
                 if pushed:
                     self.self_ctx = self.self_ctx[:-1]
+            for (g2, kind, t) in res:
+                yield (g2, kind, t, env)
             return
         if pushed:
             self.self_ctx = self.self_ctx[:-1]
